@@ -49,7 +49,7 @@ def callee_ref(route, uid, j):
         return 'NS.sub.' + base
     if route == 'method':
         return 'self.' + base
-    if route in ('param', 'param_kw', 'param_default', 'param_method', 'method_default'):
+    if route in ('param', 'param_nested', 'param_kw', 'param_default', 'param_method', 'method_default'):
         return 'fn%d' % j
     if route == 'partial':
         return base
@@ -257,6 +257,16 @@ def render(prog, uid):
         lines.append('def F%s(%s%s):' % (uid, fns, ', ' + outer_txt if outer_txt else ''))
         lines.extend(ind + ln for ln in body_lines(prog, uid))
         lines.append('W%s = functools.partial(F%s, %s)' % (uid, uid, ', '.join('C%s_%d' % (uid, j) for j in range(n))))
+        return '\n'.join(lines) + '\n'
+    if prog.route == 'param_nested':
+        # the callee is bound by a partial object around another partial object, which functools leaves nested because the
+        # inner one carries an attribute of its own
+        fns = ', '.join('fn%d' % j for j in range(n))
+        lines.append('def F%s(%s%s):' % (uid, fns, ', ' + outer_txt if outer_txt else ''))
+        lines.extend(ind + ln for ln in body_lines(prog, uid))
+        lines.append('Q%s = functools.partial(F%s)' % (uid, uid))
+        lines.append('Q%s.tag = 1' % uid)
+        lines.append('W%s = functools.partial(Q%s, %s)' % (uid, uid, ', '.join('C%s_%d' % (uid, j) for j in range(n))))
         return '\n'.join(lines) + '\n'
     if prog.route == 'param_method':
         # the forwarder is a bound method; the callee is a bound positional of the partial
